@@ -31,7 +31,7 @@ type ClientOp struct {
 // Fault is one planned fault with its trigger.
 type Fault struct {
 	Kind   string `json:"kind"`             // crash | conn-down | conn-up | dev-restart | dev-error | dev-drop | op-unavail | op-acklost | stall | conn-replace
-	On     string `json:"on"`               // effect | step | devset | write | after-devset | during-devset
+	On     string `json:"on"`               // effect | step | devset | write | after-devset | during-devset | after-write
 	N      int    `json:"n"`                // trigger count
 	Target string `json:"target,omitempty"` // device faults
 	Code   int    `json:"code,omitempty"`   // dev-error: gRPC code
